@@ -262,7 +262,7 @@ def gen_case(S, tier):
                 continue
             grid = solver.gen_times(rng, t0, min(tmax, 8.0), k=rng.randint(2, 6))
             # iteration counts of very different size (chunked or blocked implementations change behaviour with it)
-            op = {"kind": kind, "grid": grid, "n": rng.choice([2, 3, 5, 2, 3, 5, 7, 16, 33, 65, 100, 130])}
+            op = {"kind": kind, "grid": grid, "n": rng.choice([2, 3, 5, 2, 3, 5, 2, 3, 5, 7, 16, 33, 65, 100, 130, 300])}
             if op["n"] > 16:
                 op["grid"] = grid[:3]
             case = {"engine": "repro", "problem": name, "model": model, "theta": theta, "x0": x0, "t0": t0, "param_spec": spec}
